@@ -3,6 +3,8 @@ M-diag: the publish / clear bookkeeping of diagnostics_manager.go and the order 
 handlers of textdocument_file_request.go invoke it.
   saved  = LspServer.fileErrorMap        (per file: the errors of the last full analysis)
   change = LspServer.fileChangeErrorMap  (per file: the syntax errors of an unsaved buffer)
+  hidden = LspServer.fileHideSyntaxMap   (files whose unsaved buffer parses cleanly: saved syntax errors hidden;
+                                          added by the repair of finding C08-K1)
   client = what the client is left holding: the LAST list published for each file
 The analysis itself is an input: each event carries the error map the (incremental) analysis produced.
 Core Lean only.
@@ -25,6 +27,7 @@ def ins (m : EMap) (f : File) (e : List Err) : EMap := (f, e) :: del m f
 structure St where
   saved : EMap := []
   change : EMap := []
+  hidden : List File := []
   client : File → List Err := fun _ => []
 
 def publish (s : St) (f : File) (e : List Err) : St :=
@@ -56,15 +59,30 @@ def pushStep (old : EMap) (s : St) (p : File × List Err) : St :=
 
 def rechangeStep (s : St) (p : File × List Err) : St := publish (publish s p.1 []) p.1 p.2
 
-/-- pushAllDiagnosticsAgain with the freshly computed error map -/
+/-- second loop of pushAllChangeFileDiagnosticErr: a file whose unsaved buffer parses cleanly shows its saved
+    diagnostics without the syntax errors -/
+def rehideStep (s : St) (f : File) : St :=
+  if (lk s.change f).isSome then s else pushFile (publish s f []) f true
+
+/-- pushAllDiagnosticsAgain with the freshly computed error map; since the repair of finding C08-K1 the files
+    with unsaved edits are ALWAYS brought back to the view of their buffer afterwards -/
 def pushAll (s : St) (new : EMap) : St :=
+  let s1 := s.saved.foldl (clearStep new) s
+  let s2 := new.foldl (pushStep s.saved) s1
+  let s3 := { s2 with saved := new }
+  let s4 := s3.change.foldl rechangeStep s3
+  s4.hidden.foldl rehideStep s4
+
+/-- pushAllDiagnosticsAgain as it was: the unsaved errors were shown again only when the new map was empty
+    (kept for theorem C08.dirty_view_overridden_before) -/
+def pushAllOld (s : St) (new : EMap) : St :=
   let s1 := s.saved.foldl (clearStep new) s
   let s2 := new.foldl (pushStep s.saved) s1
   let s3 := { s2 with saved := new }
   if new.isEmpty then s3.change.foldl rechangeStep s3 else s3
 
 def insertChange (s : St) (f : File) (e : List Err) : St :=
-  publish { s with change := ins s.change f e } f e
+  publish { s with change := ins s.change f e, hidden := s.hidden.filter (· != f) } f e
 
 def clearChange (s : St) (f : File) : St :=
   match lk s.change f with
@@ -72,12 +90,13 @@ def clearChange (s : St) (f : File) : St :=
   | some _ => pushFile (publish { s with change := del s.change f } f []) f true
 
 def saveOne (s : St) (f : File) : St :=
-  let s := { s with change := del s.change f }
+  let s := { s with change := del s.change f, hidden := s.hidden.filter (· != f) }
   match lk s.saved f with
   | some _ => pushFile s f false
   | none => publish s f []
 
 def clearSyntax (s : St) (f : File) : St :=
+  let s := { s with hidden := f :: s.hidden.filter (· != f) }
   match lk s.saved f with
   | none => s
   | some _ => pushFile (publish s f []) f true
@@ -100,8 +119,8 @@ def evOpenWith (s : St) (f : File) (new : EMap) (edit : Option (List Err)) : St 
 def evChange (s : St) (f : File) (errs : List Err) : St :=
   if errs.isEmpty then clearSyntax (clearChange s f) f else insertChange s f errs
 
-/-- didChangeWatchedFiles -/
-def evWatched (s : St) (fs : List File) (new : EMap) : St := pushAll (fs.foldl clearChange s) new
+/-- didChangeWatchedFiles (the unsaved-error entries of the announced files are no longer dropped: repair of C08-K1) -/
+def evWatched (s : St) (_fs : List File) (new : EMap) : St := pushAll s new
 
 /-- didSave -/
 def evSave (s : St) (f : File) (new : EMap) : St := saveOne (pushAll s new) f
